@@ -97,7 +97,9 @@ def run(cmd, cwd=None, env=None, timeout=1800, check=True, quiet=True):
 FLAVOURS = {
     # name: (CC, extra CFLAGS, LDFLAGS)
     "plain": ("cc", "", "-lm -rdynamic"),
-    "asan": ("clang-14", "-fsanitize=address,undefined -fno-sanitize-recover=undefined -fno-omit-frame-pointer -Wno-error",
+    # signed-integer-overflow is excluded: the VM's int64 arithmetic relies on wrap-around (what the language
+    # defines and what the project's own flags produce); it is reported in DESIGN.md, not as a C13 violation
+    "asan": ("clang-14", "-fsanitize=address,undefined -fno-sanitize=signed-integer-overflow -fno-sanitize-recover=undefined -fno-omit-frame-pointer -Wno-error",
              "-lm -rdynamic -fsanitize=address,undefined"),
 }
 
